@@ -345,10 +345,10 @@ def run(chk):
         cases.append(c)
     # many workers around a common mean (more rows than any unit test uses, norms 1e4 times the pairwise
     # distances): Krum, TrimmedMean and Mean on 26-30 clustered rows
-    for name in ("Krum", "Krum", "TrimmedMean", "Mean"):
+    for name in ("Krum", "Krum", "Krum", "Krum", "TrimmedMean", "Mean"):
         for _ in range(50):
             m, n = rng.randint(26, 30), rng.randint(3, 5)
-            base = [rng.choice([-1, 1]) * 4096 * rng.randint(1, 3) for _ in range(n)]
+            base = [rng.choice([-1, 1]) * 4096 * rng.randint(2, 16) for _ in range(n)]
             J = [[F(base[j] + rng.randint(-6, 6)) for j in range(n)] for _ in range(m)]
             p = {"f": rng.randint(1, 8), "k": rng.randint(1, 3)} if name == "Krum" else A.gen_params(rng, name, m)
             if name == "Krum":
